@@ -103,6 +103,10 @@ Definition interp_pos (rows : list row) (cx : Z * Z) : ext :=
   let '(c, x) := cx in if has_chr rows c then Fin (interp1 (knots rows c) x) else NaN.
 Definition interp_genpos (rows : list row) (query : list (Z * Z)) : list ext := map (interp_pos rows) query.
 
+(** a map's own markers as a query, and its stored positions *)
+Definition own_pairs (rows : list row) : list (Z * Z) := map (fun r => (r_chr r, r_phy r)) rows.
+Definition fin_gens (rows : list row) : list ext := map (fun r => Fin (r_gen r)) rows.
+
 (** * genetic distances *)
 (** python slice a[st:sp] with optional, possibly negative bounds *)
 Definition norm_ix (n : Z) (d : Z) (o : option Z) : Z :=
